@@ -88,17 +88,16 @@ impl ScriptStack for Vec<Vec<u8>> {
     fn pop_bool(&mut self) -> Result<bool, InterpreterError> {
         let data = self.pop().ok_or(InterpreterError::EmptyStack)?;
 
-        if data.len() > 4 {
-            return Err(InterpreterError::TooLongForBool);
-        }
-
-        Ok(BigInt::from_signed_bytes_le(&data) >= BigInt::from_slice(num_bigint::Sign::Plus, &[1]))
+        // A byte string of any length is true unless it is zero: all bytes 0x00, where the last byte may also be 0x80 (negative zero).
+        let last = data.len().saturating_sub(1);
+        Ok(data.iter().enumerate().any(|(i, byte)| *byte != 0 && !(i == last && *byte == 0x80)))
     }
 
     fn push_bool(&mut self, boolean: bool) -> Result<(), InterpreterError> {
+        // true is the number 1, false is the number 0 (the empty byte string)
         let data = match boolean {
             true => vec![1],
-            false => vec![0],
+            false => vec![],
         };
 
         self.push(data);
